@@ -18,7 +18,7 @@ class C03(SessionCheck):
         n = 6 if tier == 'quick' else 80
         out = []
         for i in range(n):
-            out.append({'kind': 'e2e', 'sc': {'transport': 'tls' if (tier == 'thorough' and i % 4 == 3) else 'unix',
+            out.append({'kind': 'e2e', 'sc': {'transport': ['unix', 'ssh', 'unix', 'tls'][i % 4] if (tier == 'thorough' or i % 4 != 3) else 'unix',
                                               'profile': SG.PROFILES[(i * 5) % len(SG.PROFILES)], 'threads': rng.randint(2, 5),
                                               'per_thread': rng.randint(2, 5), 'window': rng.randint(1, 5), 'notifs': rng.choice([0, 0, 3]),
                                               'seg': rng.choice(['random', 'whole', 'ones']), 'seed': rng.randrange(1 << 30)}})
